@@ -128,12 +128,13 @@ theorem C13_trivial_id_partial (E : K → K) (floor : K) (n : Norm K) (h : isTri
     simp [apply, undo, reported, h1, divide0, fdiv]
   | _ => simp [isTrivial] at h
 
-/-- what is NOT proved: with the real tolerance (`.0001` per component) a components object that reports itself trivial
-    changes every in-fan bin by a relative amount of at most `(1+tol)^4 - 1` -/
-def C13_trivial_within_tolerance : Prop :=
-  ∀ (E : K → K) (tol : K) (c : Components K), 0 ≤ tol → tol ≤ 1 → c.RangeOK → c.isTrivial tol = true →
-    ∀ b, c.inFan b = true → ∀ v, 0 ≤ v → ∀ w, undo E (.fromComponents c) b v = some w →
-      v * (1 - tol) ^ 4 ≤ w ∧ w ≤ v * (1 + tol) ^ 4
+/-- … and with the real tolerance (`.0001` per component array, any `0 ≤ tol ≤ 1`): a components object that reports itself
+    trivial changes every in-fan bin by a factor between `(1-tol)^4` and `(1+tol)^4` (block × two crystals × geometric factor) -/
+theorem C13_trivial_within_tolerance (E : K → K) (tol : K) (c : Components K) (h0 : 0 ≤ tol) (h1 : tol ≤ 1)
+    (hr : c.RangeOK) (ht : isTrivial tol (.fromComponents c) = true) (b : Bin) (hb : c.inFan b = true) (v : K) (hv : 0 ≤ v) :
+    ∃ w, undo E (.fromComponents c) b v = some w ∧ v * (1 - tol) ^ 4 ≤ w ∧ w ≤ v * (1 + tol) ^ 4 := by
+  obtain ⟨lo, hi⟩ := invnorm_within c tol h0 h1 hr ht b hb
+  exact ⟨v * c.invnorm b, rfl, mul_le_mul_of_nonneg_left lo hv, mul_le_mul_of_nonneg_left hi hv⟩
 
 /-- "whether called on related viewgrams with any symmetries or on a whole data set": processing the data group by
     group, for ANY grouping of bins in which no bin occurs twice, normalises exactly the bins of the groups, each once … -/
@@ -231,6 +232,11 @@ example (fan : Bin → Bool) : (exComp fan).isTrivial 0 = true ∧ (exComp fan).
       simp only [exComp, Option.some.injEq] at h
       subst h
       simp [exComp]
+
+/-- … and one with all factors within 1e-4 of 1 is trivial at the real tolerance -/
+example : ({ inFan := fun _ => true, eff := some (fun _ => 1 + 1 / 20000, fun _ => 1 - 1 / 20000), geo := none, block := none,
+             effRange := (1 - 1 / 20000, 1 + 1 / 20000), geoRange := (1, 1), blockRange := (1, 1) } : Components ℚ).isTrivial (1 / 10000) = true := by
+  simp only [Components.isTrivial, nearOne]; norm_num
 
 /-- two groupings of the same four bins -/
 example : ([[(⟨0, 0, 0, 0, 0⟩ : Bin), ⟨0, 1, 0, 0, 0⟩], [⟨0, 2, 0, 0, 0⟩, ⟨0, 3, 0, 0, 0⟩]] : List (List Bin)).flatten.Nodup ∧
